@@ -65,7 +65,7 @@ class C10(BpCheck):
     gen = staticmethod(bp_cases.c10_executions)
     what = ('sequences of receptions over 14 look-alike bundles (all singles and ordered pairs, thorough all triples, '
             'random sequences of 5..30) x 6 routing tables (swapped order, overlapping prefixes, none matching); '
-            'distinct = distinct (table, sequence)')
+            'a repeat after 70 and 1500 (thorough up to 6000) other identities; distinct = distinct (table, sequence)')
 
 
 def _c11_with_composition(tier, seed):
@@ -82,7 +82,8 @@ class C11(BpCheck):
     gen = staticmethod(_c11_with_composition)
     what = ('received bundles routed forward with previous-node x hop-count x age blocks in {0,1,2}^3, unknown block '
             '0/1, three numberings, CRC types, zero/non-zero creation time (quick: 220 sampled of 972 mixes), clock '
-            'advanced before forwarding; the transmitted octets are read independently')
+            'advanced before forwarding; 53 administrative records in transit (status item shapes, non-shortest / '
+            'indefinite-length encodings, unknown record type, fragments); the transmitted octets are read independently')
 
 
 class C08(BpCheck):
@@ -106,7 +107,8 @@ class C19(BpCheck):
     gen = staticmethod(bp_cases.c19_executions)
     what = ('16 report-request flag sets x status-time x report-to {none, routable, unroutable, local} x outcomes '
             '{deliver, forward, forward without transmit route, delete, no route, administrative endpoint} (quick: 300 '
-            'sampled of 768 rows), each bundle received twice')
+            'sampled of 768 rows), each bundle received twice; subjects with hop counts below, at and beyond the limit, '
+            'clockless sources, fragmented subjects, CL services leaving / re-joining the bus')
 
 
 REGISTRY = {'C08': C08, 'C10': C10, 'C11': C11, 'C19': C19}
